@@ -162,7 +162,12 @@ def run(spin=SPIN, sigterm=stop, sigusr1=print_stack):
                 # call the functions
                 for fn, args, kwargs in fnlist:
 #                   if _debug: run._debug("    - call: %r %r %r", fn, args, kwargs)
-                    fn(*args, **kwargs)
+                    # the list has been detached, an error in one function
+                    # must not discard the rest of them
+                    try:
+                        fn(*args, **kwargs)
+                    except Exception as err:
+                        run._exception("an error has occurred: %s", err)
 
                 # done with this list
                 del fnlist
@@ -212,7 +217,12 @@ def run_once():
                 # call the functions
                 for fn, args, kwargs in fnlist:
                     if _debug: run_once._debug("    - call: %r %r %r", fn, args, kwargs)
-                    fn(*args, **kwargs)
+                    # the list has been detached, an error in one function
+                    # must not discard the rest of them
+                    try:
+                        fn(*args, **kwargs)
+                    except Exception as err:
+                        run_once._exception("an error has occurred: %s", err)
 
                 # done with this list
                 del fnlist
